@@ -330,15 +330,24 @@ impl<'a> Runner<'a> {
     }
 
     fn check_hs_obs(&mut self, i: usize, op: &str, id: &str, obs: &Value, cause: &str) -> Result<(), String> {
-        let (turn, fin, init, hh, rs) = match self.eps.get(id) {
-            Some(Endpoint::Hs(h)) => (
-                h.is_my_turn(),
-                h.is_handshake_finished(),
-                h.is_initiator(),
-                h.get_handshake_hash().to_vec(),
-                h.get_remote_static().map(|x| x.to_vec()),
-            ),
+        let got = match self.eps.get(id) {
+            Some(Endpoint::Hs(h)) => catch_unwind(AssertUnwindSafe(|| {
+                (
+                    h.is_my_turn(),
+                    h.is_handshake_finished(),
+                    h.is_initiator(),
+                    h.get_handshake_hash().to_vec(),
+                    h.get_remote_static().map(|x| x.to_vec()),
+                )
+            })),
             _ => return Err("check_hs_obs on non-handshake endpoint".into()),
+        };
+        let (turn, fin, init, hh, rs) = match got {
+            Ok(v) => v,
+            Err(_) => {
+                self.viol(i, op, "panic", "state queries return".into(), "panic in a getter".into(), cause);
+                return Ok(());
+            },
         };
         let et = obs["turn"].as_bool().ok_or("obs.turn")?;
         let ef = obs["fin"].as_bool().ok_or("obs.fin")?;
@@ -371,15 +380,21 @@ impl<'a> Runner<'a> {
     }
 
     fn check_tr_obs(&mut self, i: usize, op: &str, id: &str, obs: &Value, cause: &str) -> Result<(), String> {
-        let (init, rs, sn, rn) = match self.eps.get(id) {
-            Some(Endpoint::Tr(t)) => (
-                t.is_initiator(),
-                t.get_remote_static().map(|x| x.to_vec()),
-                Some(t.sending_nonce()),
-                Some(t.receiving_nonce()),
-            ),
-            Some(Endpoint::Sl(t)) => (t.is_initiator(), t.get_remote_static().map(|x| x.to_vec()), None, None),
+        let got = match self.eps.get(id) {
+            Some(Endpoint::Tr(t)) => catch_unwind(AssertUnwindSafe(|| {
+                (t.is_initiator(), t.get_remote_static().map(|x| x.to_vec()), Some(t.sending_nonce()), Some(t.receiving_nonce()))
+            })),
+            Some(Endpoint::Sl(t)) => {
+                catch_unwind(AssertUnwindSafe(|| (t.is_initiator(), t.get_remote_static().map(|x| x.to_vec()), None, None)))
+            },
             _ => return Err("check_tr_obs on non-transport endpoint".into()),
+        };
+        let (init, rs, sn, rn) = match got {
+            Ok(v) => v,
+            Err(_) => {
+                self.viol(i, op, "panic", "state queries return".into(), "panic in a getter".into(), cause);
+                return Ok(());
+            },
         };
         let ei = obs["init"].as_bool().ok_or("obs.init")?;
         if init != ei {
@@ -727,11 +742,18 @@ impl<'a> Runner<'a> {
             },
             "raw_split" => {
                 let cause = String::new();
-                let (k1, k2) = match self.eps.get_mut(&id) {
-                    Some(Endpoint::Hs(h)) => h.dangerously_get_raw_split(),
+                self.out.calls += 1;
+                let got = match self.eps.get_mut(&id) {
+                    Some(Endpoint::Hs(h)) => catch_unwind(AssertUnwindSafe(|| h.dangerously_get_raw_split())),
                     _ => return Err("raw_split on wrong endpoint".into()),
                 };
-                self.out.calls += 1;
+                let (k1, k2) = match got {
+                    Ok(k) => k,
+                    Err(_) => {
+                        self.viol(i, &op, "panic", "the two split keys".into(), "panic".into(), &cause);
+                        return Ok(false);
+                    },
+                };
                 let e1 = self.ev(&exp["k1"])?;
                 let e2 = self.ev(&exp["k2"])?;
                 if e1 != k1 {
